@@ -50,7 +50,7 @@ var pkgs = map[string]rules{
 	"cmd/rdpgw/security":  {time: true, fine: true, sync: true, gostmt: true, chans: true},
 	"cmd/rdpgw/identity":  {fine: true, sync: true, gostmt: true, chans: true},
 	"cmd/rdpgw/rdp":       {fine: true, sync: true, gostmt: true, chans: true},
-	"cmd/auth/ntlm":       {fine: true, sync: true, gostmt: true, chans: true},
+	"cmd/auth/ntlm":       {fine: true, sync: true, gostmt: true, chans: true, time: true},
 }
 
 func die(format string, a ...any) {
